@@ -32,12 +32,18 @@ theorem bppp_parse_one_of_points_sites : Facts.bppp_parse_one_of_points = [
     ⟨.ge_parse_ext, 1, true, none⟩
   ] := by decide
 
-def all : List CallFact := Facts.bppp_rangeproof_norm_product_verify ++ Facts.bppp_generators_parse ++ Facts.bppp_parse_one_of_points
+/-- `secp256k1_bppp_challenge_scalar`: its fallible-primitive call sites are exactly these, each with its result / overflow flag
+    consumed as listed. -/
+theorem bppp_challenge_scalar_sites : Facts.bppp_challenge_scalar = [
+    ⟨.scalar_set_b32, 1, false, none⟩
+  ] := by decide
+
+def all : List CallFact := Facts.bppp_rangeproof_norm_product_verify ++ Facts.bppp_generators_parse ++ Facts.bppp_parse_one_of_points ++ Facts.bppp_challenge_scalar
 
 /-- No overflow flag written by a scalar decoding in these functions is ignored (overwritten or never read). -/
 theorem no_flag_dropped : ∀ f ∈ all, f.flag ≠ some false := by decide
 
 /-- non-vacuity: the regenerated fact lists are not empty -/
-example : all.length = 6 := by decide
+example : all.length = 7 := by decide
 
 end SecpZkp.Props.C19_guards
